@@ -19,7 +19,7 @@ from .core import DomainError, HarnessError, SymBool, cur, have_ctx
 
 Number = Union[int, float, Fraction]
 
-CONFIG = {"exp_uf": None}
+CONFIG = {"exp_uf": None, "log_uf": None}
 
 
 def _is_number(x) -> bool:
@@ -442,7 +442,13 @@ class SymReal:
         raise HarnessError("SymReal is not hashable")
 
     # ---- numpy object-loop hooks (np.sqrt(arr) calls elem.sqrt(), etc.)
-    def log(self) -> "LogVal":
+    def log(self):
+        if CONFIG["exp_uf"] is not None:
+            # companion of the uninterpreted exp: an uninterpreted log (no algebraic laws are assumed)
+            if self.sign != "+" and not (self.c > 0 and self._num_positive()):
+                if not cur().branch(self.n > 0):
+                    raise DomainError("log of a non-positive value")
+            return SymReal(CONFIG["log_uf"](self.term()), _ONE, None)
         if self.sign != "+" and not (self.c > 0 and self._num_positive()):
             if not cur().branch(self.n > 0):
                 raise DomainError("log of a non-positive value")
